@@ -119,6 +119,9 @@ func (in *Interp) callVP(fr *frame, f *ssa.Function, args []Value, site ssa.Inst
 		return args[2]
 	case "vpPanics":
 		return in.vpPanics(fr, args[0])
+	case "vpNative":
+		// native-only setup (file system etc.); the engine relies on intercepts for the equivalent effect
+		return nil
 	case "vpDerived":
 		// a value computed by (possibly intercepted) real code in the engine; natively it is re-supplied from the tape
 		t, ok := args[0].(*Term)
@@ -423,6 +426,9 @@ func vpIte[T any](c bool, a, b T) T {
 	return b
 }
 func vpFloatLt(a, b float64) bool { return a < b }
+
+// vpNative runs f only in the native build (the engine skips it and relies on //vp:intercept).
+func vpNative(f func()) { f() }
 
 // vpDerived: in the engine the argument (computed by real, possibly intercepted code) is kept;
 // natively the engine's value for it is read back from the tape.
